@@ -15,6 +15,7 @@ import (
 // nearest dominating definition.
 func (a *Act) headerEnv(li *loopInfo, phis map[*ssa.Phi]Val, st *State) *Env {
 	e := a.baseEnv(st)
+	e.loop = li
 	e.resolve = func(name string) (Val, bool) {
 		return a.resolveAtHeader(li, phis, name, st)
 	}
@@ -151,6 +152,14 @@ func (a *Act) resolveDom(b *ssa.BasicBlock, name string, st *State) (Val, bool) 
 	if v, ok := a.params[name]; ok {
 		return v, true
 	}
+	// named results and other address-taken locals
+	for _, l := range a.fn.Locals {
+		if l.Comment == name {
+			if p, ok := a.vals[l]; ok {
+				return a.loadLoc(st, a.objLoc(p)), true
+			}
+		}
+	}
 	for _, fv := range a.fn.FreeVars {
 		if fv.Name() == name {
 			p := a.val(fv)
@@ -202,6 +211,9 @@ func (eng *Engine) encodeFunc(fn *ssa.Function, ct *Contract) *FuncResult {
 		for _, g := range ct.Ghosts {
 			s := ghostSort(g.Type)
 			a.ghosts[g.Name] = Val{Sort: s, Term: vc.declare("ghost_"+g.Name, s)}
+			if s == SortAsg {
+				vc.assume("true", app("asgmark", a.ghosts[g.Name].Term))
+			}
 		}
 		env := a.baseEnv(entry)
 		env.vars = a.paramVars()
